@@ -48,9 +48,25 @@ IS_SCO21 = z3.Bool('is_sco(data, 2.1)'); IS_OBS = z3.Bool('isinstance(data, _Obs
 PARSE = z3.Function('parsed_instant', z3.IntSort(), z3.BoolSort(), z3.IntSort())     # parse_into_datetime(value, 'millisecond', exact?) as an instant
 
 
+CP = z3.Const('kwargs.custom_properties.keys', E.SetS); CP_IS_MAPPING = z3.Bool('isinstance(kwargs.custom_properties, Mapping)')
+
+
+def supplied(a):
+    """property names the change set supplies: keyword arguments, and the keys of a custom_properties mapping"""
+    K = a['kwargs'].x['present']
+    return lambda k: z3.Or(K(k), z3.And(K('custom_properties'), CP_IS_MAPPING, CP[k if not isinstance(k, str) else z3.StringVal(k)]))
+
+
 def new_version_contract():
+    from vf.pyvc import lib as L
+    L.E_AS_SET['cprops'] = lambda v: v.t
     data = mk_map('data', {'revoked': 'bool', 'modified': 'dt', 'created': 'dt', 'id': 'str', 'type': 'str', 'created_by_ref': 'str', 'name': 'str'})
-    kwargs = mk_map('kwargs', {'modified': 'dt', 'created': 'dt', 'id': 'str', 'type': 'str', 'created_by_ref': 'str', 'revoked': 'opt:bool', 'name': 'opt:str'})
+    kwargs = mk_map('kwargs', {'modified': 'dt', 'created': 'dt', 'id': 'str', 'type': 'str', 'created_by_ref': 'str', 'revoked': 'opt:bool', 'name': 'opt:str',
+                               'custom_properties': lambda nm: Val('cprops', CP)})
+
+    def h_is_mapping(x, v, p, site):
+        if v.sort == 'cprops': yield p, Bool(CP_IS_MAPPING)
+        else: yield from L.isinstance_model(x, v, 'Mapping', p, site)
     stix_version = E.named('opt:str', 'stix_version')
 
     def h_check_versionable(x, e, p, site):
@@ -204,7 +220,7 @@ def new_version_contract():
                                                     z3.Implies(a['data'].x['present'](k), same_value(m.x['value'](k), a['data'].x['value'](k))))))  # untouched otherwise
         return z3.And(*cl)
 
-    return Contract(
+    c = Contract(
         f'{SRC}::new_version', props=['C05'],
         params={'data': data, 'allow_custom': 'opt:bool', 'kwargs': kwargs},
         requires=[('data is a STIX object or dictionary: it has type and id, and holds no None values (declared keys are non-optional in the model)',
@@ -216,7 +232,7 @@ def new_version_contract():
                 'TypeNotVersionableError': None, 'ObjectNotVersionableError': None, 'InvalidValueError': None, 'ValueError': None},
         loops={0: {'kind': 'inv', 'inv': inv_unchangeable}},
         handlers={'_check_versionable_object': h_check_versionable, 'copy.deepcopy': h_deepcopy, 'is_sco': h_is_sco, 'uuid.UUID': h_uuid,
-                  'isinstance:stix2.base._Observable': h_isinstance(IS_OBS), 'isinstance:stix2.base._STIXBase': h_isinstance(IS_BASE),
+                  'isinstance:Mapping': h_is_mapping, 'isinstance:stix2.base._Observable': h_isinstance(IS_OBS), 'isinstance:stix2.base._STIXBase': h_isinstance(IS_BASE),
                   'stix2.registry.class_for_type': h_class_for_type, 'itertools.chain': h_chain, 'parse_into_datetime': h_parse,
                   'get_timestamp': h_get_timestamp, '_fudge_modified': h_fudge, 'type': h_type, 'cls': h_cls},
         globals={'uuid.RFC_4122': Str('specified in RFC 4122')},
@@ -229,7 +245,11 @@ def new_version_contract():
         assumptions=['A(copy.deepcopy): returns an equal value sharing no mutable state [probed natively in C13]',
                      'callee contracts used: _check_versionable_object (returns the detected version or raises), parse_into_datetime (C15), _fudge_modified (proved here), the class constructor (C02; may refuse)',
                      'slice contract: the object is modelled as a map with the declared keys {revoked, modified, created, id, type, created_by_ref, name} plus an arbitrary set of other keys'],
-        note='slice contract of DESIGN Appendix A.3')
+        expr_hooks={'isinstance(kwargs.get("custom_properties"), Mapping)': lambda x, e, p: iter([(p, Bool(z3.And(kwargs.x['present']('custom_properties'), CP_IS_MAPPING)))]),
+                    "isinstance(kwargs.get('custom_properties'), Mapping)": lambda x, e, p: iter([(p, Bool(z3.And(kwargs.x['present']('custom_properties'), CP_IS_MAPPING)))])},
+        merge_set_branches=True, note='slice contract of DESIGN Appendix A.3')
+    c.prune_quantifier_free = True
+    return c
 
 
 _j = z3.Int('j!lock')
@@ -265,7 +285,8 @@ def inv_unchangeable(x, env, i, it):
     """unchangable_properties == { seq[j] | j < i and seq[j] in kwargs }"""
     u = z3.Int('j!inv'); s = z3.String('s!inv')
     K = env['kwargs'].x['present']; un = env['unchangable_properties'].t
-    return z3.ForAll([s], un[s] == z3.Exists([u], z3.And(0 <= u, u < i, it.t[0](u).t == s, K(s))))
+    sup = (lambda k: env['supplied_properties'].t[k]) if 'supplied_properties' in env and env['supplied_properties'].sort == 'set' else K
+    return z3.ForAll([s], un[s] == z3.Exists([u], z3.And(0 <= u, u < i, it.t[0](u).t == s, sup(s))))
 
 
 def new_version_outcomes(x, outs, add):
@@ -273,10 +294,10 @@ def new_version_outcomes(x, outs, add):
     than the original's at the spec version's serialization precision; unmodifiable properties are refused"""
     a = x.params
     for idx, (kind, p, v) in enumerate(outs):
-        K = a['kwargs'].x['present']
-        touched = z3.Or(*[K(k) for k in UNMOD])
+        K = a['kwargs'].x['present']; SUP = supplied(a)
+        touched = z3.Or(*[SUP(k) for k in UNMOD])
         if kind == 'return':
-            add(f'unmodifiable properties (type, id, created, created_by_ref) in the change set are refused @path{idx}', p.pc, z3.Not(touched), p.exact)
+            add(f'unmodifiable properties (type, id, created, created_by_ref) in the change set -- keyword arguments or custom_properties keys -- are refused @path{idx}', p.pc, z3.Not(touched), p.exact)
             if v.sort != 'ctor': continue
             m = v.x
             newm = m.x['value']('modified')
@@ -291,7 +312,7 @@ def new_version_outcomes(x, outs, add):
         elif kind == 'raise' and v.name == 'UnmodifiablePropertyError':
             jj = z3.Int('j!post')
             add(f'UnmodifiablePropertyError only when the change set names an unmodifiable or identifier-contributing property @path{idx}', p.pc,
-                z3.Or(touched, z3.Exists([jj], z3.And(0 <= jj, jj < NLOCKED, K(LOCKED(jj))))), p.exact)
+                z3.Or(touched, z3.Exists([jj], z3.And(0 <= jj, jj < NLOCKED, SUP(LOCKED(jj))))), p.exact)
 
 
 # ------------------------------------------------------------------ revoke
